@@ -74,6 +74,8 @@ class _Fut:
 
 class _Owner:
     """Stands where the pairing stands: takes the parsed events the connection hands on."""
+    name = "sim"          # (whatever the protocol layers read from their owner has to exist: a missing attribute would end a case with an
+    #                        AttributeError that looks like the session being torn down)
 
     def event_received(self, parsed):
         pass
